@@ -421,6 +421,47 @@ pub fn run(tier: Tier, seed: u64) -> i32 {
             }
         }
     }
+    // every raw call length from every key position: a peer decides how many bytes arrive in one read, so the
+    // raw decrypt/encrypt entry points see any slice length at any cursor position (hidden narrow counters, index
+    // arithmetic on the slice length); lengths 0..=600 x 41 starting offsets x all seven objects
+    let max_len = tier.pick(600usize, 1500usize);
+    let raw_calls = AtomicU64::new(0);
+    (0..=40usize).into_par_iter().for_each(|start| {
+        let mut v = ciphers::vanilla(&key);
+        let mut t = ciphers::tbc(&key);
+        let mut ws = ciphers::wrath_server(&key);
+        let mut wc = ciphers::wrath_client(&key);
+        let mut pre = vec![0xA5u8; start];
+        v.decrypt(&mut pre.clone());
+        v.encrypt(&mut pre.clone());
+        t.decrypt(&mut pre.clone());
+        t.encrypt(&mut pre.clone());
+        ws.decrypt(&mut pre.clone());
+        ws.encrypt(&mut pre.clone());
+        wc.encrypt(&mut pre);
+        let mut n = 0u64;
+        for len in 0..=max_len {
+            let data: Vec<u8> = (0..len).map(|i| (i as u8).wrapping_mul(31) ^ 0xC3).collect();
+            let rs: [(&str, Result<(), String>); 7] = [
+                ("vanilla raw decrypt", catch(|| v.clone().decrypt(&mut data.clone()))),
+                ("vanilla raw encrypt", catch(|| v.clone().encrypt(&mut data.clone()))),
+                ("tbc raw decrypt", catch(|| t.clone().decrypt(&mut data.clone()))),
+                ("tbc raw encrypt", catch(|| t.clone().encrypt(&mut data.clone()))),
+                ("wrath server raw decrypt", catch(|| ws.clone().decrypt(&mut data.clone()))),
+                ("wrath server raw encrypt", catch(|| ws.clone().encrypt(&mut data.clone()))),
+                ("wrath client raw encrypt", catch(|| wc.clone().encrypt(&mut data.clone()))),
+            ];
+            for (name, r) in rs {
+                n += 1;
+                if let Err(m) = r {
+                    viol(&report, "header", "raw-call-panic", json!({"entry": name, "bytes_before": start, "call_length": len, "session_key": hex(&key)}), format!("{name} panicked on a {len}-byte call after {start} earlier bytes: {m}"));
+                }
+            }
+        }
+        raw_calls.fetch_add(n, Ordering::Relaxed);
+    });
+    hdr_calls += raw_calls.load(Ordering::Relaxed);
+    report.count("raw_call_length_x_position_calls", raw_calls.load(Ordering::Relaxed));
     // plaintext-targeted headers: the peer chooses the PLAINTEXT (it knows the keystream), so sweep the
     // decrypted header bytes, not the ciphertext: every first byte x alphabets for the others, all entry points
     let vals: [u8; 8] = [0x00, 0x01, 0x03, 0x04, 0x7F, 0x80, 0xFE, 0xFF];
